@@ -1134,6 +1134,9 @@ class Container:
             solute = list(solute)
             if any(not isinstance(substance, Substance) for substance in solute):
                 raise TypeError("Solute(s) must be a Substance.")
+        if len(set(solute)) != len(solute):
+            # each entry would get its own amount and the amounts would be added up under one name
+            raise ValueError("Solution is impossible to create. (A solute is listed more than once.)")
 
         concentration = kwargs.get('concentration', None)
         quantity = kwargs.get('quantity', None)
